@@ -179,8 +179,54 @@ def coupled_contract_s(draw, ins, outs, w, assume_on=None, dyadic=True):
 
 
 @st.composite
+def kaykobad_pair_s(draw):
+    """Producer P (inputs u.., outputs y1..yk, one guarantee row per output with dominant same-sign diagonal and small couplings
+    onto the other outputs) and consumer Q (inputs y1..yk, output z, one guarantee term over all y's and z): composing them, or
+    dividing a contract that mentions all y's by P, needs a multi-variable (Kaykobad-type) elimination."""
+    k = draw(st.integers(2, 4))
+    ys = ["y1", "y2", "y3", "y4"][:k]
+    us = ["u1", "u2"][:draw(st.integers(1, 2))]
+    names = ys + us + ["z"]
+    w = draw(witness_s(names))
+    rowsign = draw(st.sampled_from([1, -1]))       # sign of the y-coefficients in P's rows
+    pg = []
+    for y in ys:
+        row = {y: rowsign * draw(st.sampled_from([1, 1, 2]))}
+        for o in ys:
+            if o != y and draw(st.integers(0, 2)) > 0:
+                row[o] = rowsign * draw(st.sampled_from([0.25, 0.5, 0.75, 0.6, 0.9]))
+        if draw(st.integers(0, 4)) > 0:
+            row[draw(st.sampled_from(us))] = -rowsign * draw(st.sampled_from([1, 1, 2, 0.5]))
+        pg.append([row, float(dot(row, w) + draw(st.sampled_from([0, 0, 1])))])
+    if draw(st.booleans()):
+        # plain bounds after the coupled rows
+        for y in ys:
+            if draw(st.booleans()):
+                pg.append([{y: float(rowsign)}, float(rowsign * w[y] + draw(st.sampled_from([1, 2, 3])))])
+    pg = list(draw(st.permutations(pg))) if draw(st.integers(0, 3)) == 0 else pg
+    # the consumer's term: relaxation needs the opposite sign, refinement (assumptions of Q) the same sign
+    qsign = -rowsign if draw(st.integers(0, 3)) > 0 else rowsign
+    qt = {y: qsign * draw(st.sampled_from([1, 1, 1, 2, 1.5])) for y in ys}
+    qt["z"] = -qsign * draw(st.sampled_from([1, 1, 2]))
+    qg = [[qt, float(dot(qt, w) + draw(st.sampled_from([0, 0, 1, 2])))]]
+    qa = []
+    if draw(st.integers(0, 3)) == 0:
+        at = {y: rowsign * draw(st.sampled_from([1, 1, 2])) for y in ys}
+        qa.append([at, float(dot(at, w) + draw(st.sampled_from([3, 5, 8])))])
+    pa = [[{u: 1.0}, float(w[u] + draw(st.sampled_from([1, 2, 3])))] for u in us if draw(st.booleans())]
+    p = {"a": pa, "g": pg, "i": us, "o": ys}
+    q = {"a": qa, "g": qg, "i": ys, "o": ["z"]}
+    return {"wiring": "kaykobad", "content": "kaykobad", "c1": p, "c2": q, "witness": w}
+
+
+@st.composite
 def contract_pair_s(draw, kinds=WIRINGS_W, dyadic=True, feedback_assumptions=False):
     """Two contracts over a wiring, sharing a witness so that everything is jointly satisfiable."""
+    if kinds is WIRINGS_W and draw(st.integers(0, 11)) == 0:
+        pr = draw(kaykobad_pair_s())
+        if draw(st.booleans()):
+            pr["c1"], pr["c2"] = pr["c2"], pr["c1"]
+        return pr
     wr = draw(wiring_s(kinds))
     names = sorted(set(wr["i1"] + wr["o1"] + wr["i2"] + wr["o2"]))
     w = draw(witness_s(names))
